@@ -126,7 +126,56 @@ func callRTypeMethod(fr *frame, rt rtype, name string, args []value) value {
 		}
 		return types.Implements(rt.t, it)
 	case "NumField":
-		return rt.t.Underlying().(*types.Struct).NumFields()
+		st, ok := rt.t.Underlying().(*types.Struct)
+		if !ok {
+			fr.rtPanic("reflect: NumField of non-struct type %s", rt.t)
+		}
+		return st.NumFields()
+	case "Field":
+		st, ok := rt.t.Underlying().(*types.Struct)
+		if !ok {
+			fr.rtPanic("reflect: Field of non-struct type %s", rt.t)
+		}
+		k := int(asInt64(args[0]))
+		if k < 0 || k >= st.NumFields() {
+			fr.rtPanic("reflect: Field index out of bounds")
+		}
+		return mkStructField(st, k)
+	case "FieldByName":
+		st, ok := rt.t.Underlying().(*types.Struct)
+		if !ok {
+			fr.rtPanic("reflect: FieldByName of non-struct type %s", rt.t)
+		}
+		name, isStr := args[0].(string)
+		if !isStr {
+			panic(unsupported("reflect.Type.FieldByName with a symbolic name"))
+		}
+		for k := 0; k < st.NumFields(); k++ {
+			if st.Field(k).Name() == name {
+				return tuple{mkStructField(st, k), true}
+			}
+		}
+		return tuple{mkStructField(nil, 0), false}
+	case "Key":
+		if m, ok := rt.t.Underlying().(*types.Map); ok {
+			return mkRType(m.Key())
+		}
+		fr.rtPanic("reflect: Key of non-map type %s", rt.t)
+	case "Len":
+		if a, ok := rt.t.Underlying().(*types.Array); ok {
+			return int(a.Len())
+		}
+		fr.rtPanic("reflect: Len of non-array type %s", rt.t)
+	case "PkgPath":
+		if n, ok := rt.t.(*types.Named); ok && n.Obj().Pkg() != nil {
+			return n.Obj().Pkg().Path()
+		}
+		return ""
+	case "ConvertibleTo":
+		o := args[0].(iface).v.(rtype)
+		return types.ConvertibleTo(rt.t, o.t)
+	case "NumMethod":
+		return types.NewMethodSet(rt.t).Len()
 	case "Bits":
 		switch kindOf(rt.t) {
 		case reflect.Int8, reflect.Uint8:
@@ -145,6 +194,20 @@ func callRTypeMethod(fr *frame, rt rtype, name string, args []value) value {
 	panic(unsupported("reflect.Type method %s", name))
 }
 
+// mkStructField builds a reflect.StructField value (field order of the struct
+// in package reflect: Name, PkgPath, Type, Tag, Offset, Index, Anonymous).
+func mkStructField(st *types.Struct, k int) value {
+	if st == nil {
+		return structure{"", "", iface{}, "", uintptr(0), []value(nil), false}
+	}
+	f := st.Field(k)
+	pkgPath := ""
+	if !f.Exported() && f.Pkg() != nil {
+		pkgPath = f.Pkg().Path()
+	}
+	return structure{f.Name(), pkgPath, mkRType(f.Type()), st.Tag(k), uintptr(0), []value{k}, f.Embedded()}
+}
+
 type rtypeMethod struct {
 	rt   rtype
 	name string
@@ -154,6 +217,10 @@ func rv(a value) rvalue {
 	r, ok := a.(rvalue)
 	if !ok {
 		panic(unsupported("reflect.Value receiver of dynamic type %T", a))
+	}
+	if r.addr != nil && r.t != nil {
+		// an addressable Value reads through to the variable (it may have been Set since)
+		r.v = load(r.t, r.addr)
 	}
 	return r
 }
@@ -444,5 +511,105 @@ func init() {
 		p := new(value)
 		*p = zero(t)
 		return rvalue{t: types.NewPointer(t), v: p}
+	}
+	intrinsics["reflect.SliceOf"] = func(fr *frame, fn *ssa.Function, a []value) value {
+		return mkRType(types.NewSlice(rtOf(a[0])))
+	}
+	intrinsics["reflect.PointerTo"] = func(fr *frame, fn *ssa.Function, a []value) value {
+		return mkRType(types.NewPointer(rtOf(a[0])))
+	}
+	intrinsics["reflect.PtrTo"] = intrinsics["reflect.PointerTo"]
+	intrinsics["reflect.Append"] = func(fr *frame, fn *ssa.Function, a []value) value {
+		r := rv(a[0])
+		st, ok := r.t.Underlying().(*types.Slice)
+		if !ok {
+			fr.rtPanic("reflect.Append: not a slice")
+		}
+		cur, _ := r.v.([]value)
+		out := append([]value(nil), cur...)
+		for _, x := range a[1].([]value) {
+			xr := rv(x)
+			v := xr.v
+			if _, isI := st.Elem().Underlying().(*types.Interface); isI {
+				if _, already := v.(iface); !already {
+					v = iface{t: xr.t, v: v}
+				}
+			}
+			out = append(out, copyVal(v))
+		}
+		return rvalue{t: r.t, v: out}
+	}
+	intrinsics["(reflect.Value).Addr"] = func(fr *frame, fn *ssa.Function, a []value) value {
+		r := rv(a[0])
+		if r.addr == nil {
+			fr.rtPanic("reflect.Value.Addr of unaddressable value")
+		}
+		return rvalue{t: types.NewPointer(r.t), v: r.addr}
+	}
+	intrinsics["(reflect.Value).IsZero"] = func(fr *frame, fn *ssa.Function, a []value) value {
+		r := rv(a[0])
+		if r.t == nil {
+			fr.rtPanic("reflect: call of reflect.Value.IsZero on zero Value")
+		}
+		return fr.decide(fr.eqValue(r.t, r.v, zero(r.t)))
+	}
+	intrinsics["(reflect.Value).Slice"] = func(fr *frame, fn *ssa.Function, a []value) value {
+		r := rv(a[0])
+		s, ok := r.v.([]value)
+		if !ok {
+			panic(unsupported("reflect.Value.Slice on %T", r.v))
+		}
+		i, j := int(asInt64(a[1])), int(asInt64(a[2]))
+		if i < 0 || j < i || j > cap(s) {
+			fr.rtPanic("reflect.Value.Slice: slice index out of bounds")
+		}
+		return rvalue{t: r.t, v: s[i:j]}
+	}
+	intrinsics["(reflect.Value).Cap"] = func(fr *frame, fn *ssa.Function, a []value) value {
+		if s, ok := rv(a[0]).v.([]value); ok {
+			return cap(s)
+		}
+		panic(unsupported("reflect.Value.Cap on %T", rv(a[0]).v))
+	}
+	intrinsics["(reflect.Value).Convert"] = func(fr *frame, fn *ssa.Function, a []value) value {
+		r := rv(a[0])
+		t := rtOf(a[1])
+		if _, isI := t.Underlying().(*types.Interface); isI {
+			if it, ok := r.v.(iface); ok {
+				return rvalue{t: t, v: it}
+			}
+			return rvalue{t: t, v: iface{t: r.t, v: r.v}}
+		}
+		return rvalue{t: t, v: fr.conv(t, r.t, r.v)}
+	}
+	intrinsics["(reflect.Value).MapKeys"] = func(fr *frame, fn *ssa.Function, a []value) value {
+		r := rv(a[0])
+		mt, ok := r.t.Underlying().(*types.Map)
+		if !ok {
+			fr.rtPanic("reflect.Value.MapKeys of non-map")
+		}
+		var out []value
+		if m, ok := r.v.(*omap); ok && m != nil {
+			for _, k := range m.keys {
+				out = append(out, rvalue{t: mt.Key(), v: k})
+			}
+		}
+		return out
+	}
+	intrinsics["(reflect.Value).MapIndex"] = func(fr *frame, fn *ssa.Function, a []value) value {
+		r := rv(a[0])
+		mt, ok := r.t.Underlying().(*types.Map)
+		if !ok {
+			fr.rtPanic("reflect.Value.MapIndex of non-map")
+		}
+		m, _ := r.v.(*omap)
+		if m == nil {
+			return rvalue{}
+		}
+		k := m.find(fr, rv(a[1]).v)
+		if k < 0 {
+			return rvalue{}
+		}
+		return rvalue{t: mt.Elem(), v: m.vals[k]}
 	}
 }
